@@ -458,21 +458,6 @@ class Hub:
                 label = "%s:%s:%s" % (a.role, m["k"], self.templ(m["p"]))
                 self.trace.append(["ev", seq, a.slot, label])
                 self._observe(a, m, seq)
-                # bounded liveness: an actor that only repeats a cycle of <= 3 labels (sleep / poll) for 600 events in a row,
-                # while no other actor can change anything for it any more, will never finish
-                rep = self._spin.setdefault(a.slot, [set(), 0])
-                if label in rep[0]:
-                    rep[1] += 1
-                else:
-                    rep[0].add(label)
-                    if len(rep[0]) > 3:
-                        rep[0], rep[1] = {label}, 0
-                if rep[1] > 600:
-                    alive = [x for x in self.actors.values() if x.alive and x.pending is not None]
-                    if all(self._spin.get(x.slot, [set(), 0])[1] > 600 for x in alive):
-                        self.kill_all()
-                        raise HarnessError("livelock: actors %s only repeat %s" % (
-                            sorted(x.slot for x in alive), sorted(set(l.split(":", 1)[1] for x in alive for l in self._spin[x.slot][0]))[:4]))
                 f = self.fault
                 if f.get("kind") == "kill_actor" and f.get("index") == seq and a.role != "worker":
                     # only this top-level actor dies (OOM killer, scancel of one job); its peers go on
